@@ -593,9 +593,9 @@ CMR_ERROR tuPartition(
   {
     CMR_CHRMAT* transpose = NULL;
     CMR_CALL( CMRchrmatTranspose(cmr, matrix, &transpose) );
-    CMR_CALL( tuPartition(cmr, transpose, true, pisTotallyUnimodular, stats, timeLimit) );
+    error = tuPartition(cmr, transpose, true, pisTotallyUnimodular, stats, timeLimit);
     CMR_CALL( CMRchrmatFree(cmr, &transpose) );
-    return CMR_OKAY;
+    return error;
   }
 
   int8_t* selection = NULL;
@@ -681,30 +681,32 @@ CMR_ERROR CMRtuTest(CMR* cmr, CMR_CHRMAT* matrix, bool* pisTotallyUnimodular, CM
     int8_t regularity = CMRseymourRegularity(root);
     if (regularity != 0)
       *pisTotallyUnimodular = regularity > 0;
-    if (proot)
-      *proot = root;
-    else
-      CMR_CALL( CMRseymourRelease(cmr, &root) );
 
+    /* The decomposition is only handed out if the remaining steps succeed (in particular, not in case of a timeout). */
     if (regularity < 0 && psubmatrix)
     {
       assert(!*psubmatrix);
       remainingTime = timeLimit - (clock() - totalClock) * 1.0 / CLOCKS_PER_SEC;
       if (params->naiveSubmatrix)
-        CMR_CALL( CMRtestHereditaryPropertyNaive(cmr, matrix, tuDecomposition, stats, psubmatrix, remainingTime) );
+        error = CMRtestHereditaryPropertyNaive(cmr, matrix, tuDecomposition, stats, psubmatrix, remainingTime);
       else
-        CMR_CALL( CMRtestHereditaryPropertyGreedy(cmr, matrix, tuDecomposition, stats, psubmatrix, remainingTime) );
-
-      return CMR_OKAY;
+        error = CMRtestHereditaryPropertyGreedy(cmr, matrix, tuDecomposition, stats, psubmatrix, remainingTime);
     }
-
-    if (regularity > 0 && !params->ternary && !params->camionFirst)
+    else if (regularity > 0 && !params->ternary && !params->camionFirst)
     {
       CMRdbgMsg(2, "Testing Camion signs afterward constructing a Seymour decomposition.\n");
-      CMR_CALL( CMRcamionTestSigns(cmr, matrix, pisTotallyUnimodular, psubmatrix,
-        stats ? &stats->camion : NULL, remainingTime) );
+      error = CMRcamionTestSigns(cmr, matrix, pisTotallyUnimodular, psubmatrix,
+        stats ? &stats->camion : NULL, remainingTime);
     }
 
+    if (proot && !error)
+      *proot = root;
+    else
+      CMR_CALL( CMRseymourRelease(cmr, &root) );
+
+    if (error == CMR_ERROR_TIMEOUT)
+      return error;
+    CMR_CALL( error );
   }
   else if (params->algorithm == CMR_TU_ALGORITHM_EULERIAN)
   {
